@@ -173,15 +173,28 @@ def bump(mon, k):
 # ---------------------------------------------------------------------------
 # reading an automaton (attribute reading only: the transition table)
 
-def table_words(fsa, L):
+class TooManyWords(Exception):
+    pass
+
+
+def table_words(fsa, L, alphabet=None):
     """[set of label tuples accepted with exactly l labels, l = 0..L], read from
-    the label view by a plain DFS from every start vertex."""
+    the label view by a plain DFS from every start vertex.  With `alphabet`
+    (number of labels a correct automaton can use) the walk stops with
+    TooManyWords as soon as it has seen more paths than there are words over
+    that alphabet -- an automaton polluted with foreign states must not make
+    the monitor run for hours (seeded change C07-3)."""
     g = fsa.graph_dict
     starts = list(fsa.start_vertices)
     out = [set() for _ in range(L + 1)]
     stack = [(v, ()) for v in starts if v in g]
+    cap = None if alphabet is None else sum(alphabet ** l for l in range(L + 1)) + 1
+    seen = 0
     while stack:
         v, w = stack.pop()
+        seen += 1
+        if cap is not None and seen > cap:
+            raise TooManyWords("more than %d paths of length <= %d" % (cap - 1, L))
         out[len(w)].add(w)
         if len(w) == L:
             continue
@@ -429,7 +442,7 @@ def setup(run):
         case = {"via": "generate_automaton_coxeter_matrix", "coxeter_matrix": M,
                 "lex_reduced": lex, "L": L, "workload_case": run.current_case}
         try:
-            got = table_words(call.result, L)
+            got = table_words(call.result, L, alphabet=n)
         except Exception as e:
             return mon.fail("%s/unreadable-automaton/matrix-fn" % mon.name,
                             "result has no readable transition table: %r" % (e,), case)
@@ -466,7 +479,7 @@ def setup(run):
         fsa_views_diag(run, call.result)
         if not even:
             try:
-                raw = table_words(call.result, L)
+                raw = table_words(call.result, L, alphabet=n)
                 got = [set(tuple(tab.get(x, x) for x in w) for w in s) for s in raw]
             except Exception as e:
                 return mon.fail("%s/unreadable-automaton/method" % mon.name,
@@ -478,7 +491,7 @@ def setup(run):
         # even-length automaton: labels are two concatenated names
         K = L // 2
         try:
-            raw = table_words(call.result, K)
+            raw = table_words(call.result, K, alphabet=n * n)
         except Exception as e:
             return mon.fail("even-language/unreadable-automaton/method",
                             "result has no readable transition table: %r" % (e,), case)
@@ -725,7 +738,17 @@ def study_matrix(run, rng, M, L_exh, L_set, L_img, sample=False, routes=("matrix
                            "shortlex" if shortlex else "geodesic", "even", route,
                            desc.get("packaging", desc.get("names")))
             K = len(base_even[shortlex]) - 1
-            ewords = list(E.enumerate_words(K))
+            # bounded enumeration: an even automaton polluted with foreign states
+            # (seeded change C07-3: automata sharing one default dictionary) has
+            # an exploding language; more words than elements is already the verdict
+            n_want = sum(len(s) for s in base_even[shortlex])
+            ewords = list(itertools.islice(E.enumerate_words(K), n_want + 2))
+            if len(ewords) > n_want:
+                evn.fail("even-language/differs-from-plain-automaton/extra/%s"
+                         % ("shortlex" if shortlex else "geodesic"),
+                         "even-length automaton of %r lists more than the %d words of even "
+                         "length <= %d that the plain automaton accepts" % (Mo, n_want, 2 * K), case)
+                continue
             edec = [decode(w, tab) if isinstance(w, str) else None for w in ewords]
             kind = "shortlex" if shortlex else "geodesic"
             if any(d is None for d in edec):
@@ -1205,13 +1228,18 @@ def wl_tutorial(run, rng, idx):
     E1 = G.automaton(even_length=True)
     E2 = fsa_.even_automaton()
     K = 8
-    w1 = sorted(E1.enumerate_words(K))
-    w2 = sorted(E2.enumerate_words(K))
+    want = sorted(w for w in words if len(w) % 2 == 0 and len(w) <= 2 * K)
+    # bounded enumeration (a polluted automaton has an exploding language)
+    w1 = sorted(itertools.islice(E1.enumerate_words(K), len(want) + 2))
+    w2 = sorted(itertools.islice(E2.enumerate_words(K), len(want) + 2))
+    if len(w1) > len(want) or len(w2) > len(want):
+        return evn.fail("even-language/differs-from-plain-automaton/tutorial",
+                        "even automaton lists more than the %d even-length words of the "
+                        "plain automaton (up to length %d)" % (len(want), 2 * K), case)
     if w1 != w2:
         return evn.fail("even-language/two-routes-differ",
                         "automaton(even_length=True) and automaton().even_automaton() "
                         "enumerate different words", case)
-    want = sorted(w for w in words if len(w) % 2 == 0 and len(w) <= 2 * K)
     if w1 != want:
         return evn.fail("even-language/differs-from-plain-automaton/tutorial",
                         "even automaton words differ from the even-length words of the "
